@@ -109,6 +109,7 @@ func cmdCheck(args []string) int {
 		seed, _ = strconv.Atoi(s)
 	}
 	rep := &checkReport{prop: prop, tier: tier, notes: map[string]bool{}, t0: time.Now()}
+	os.RemoveAll(filepath.Join("/verif/replays", prop)) // replay files always describe the current run
 	e, err := newEngine(tier)
 	if err != nil {
 		return failHard(rep, seed, "load", fmt.Sprintf("cannot load /repo or the contracts: %v", err))
